@@ -38,7 +38,7 @@ Ladders == { <<"tern", C, C, <<"tern", NB, C, C>>>>, <<"tern", C, <<"tern", NB, 
 \* an operator application that fails in the middle of a chain: nothing to its right runs
 FChains == { <<"casecall", <<C>>>>, <<"bsum", <<C, C>>>>, <<"bsum", <<C, <<"bsum", <<C>>>>, C>>>>, <<"calc", <<"fcalc", C, C>>, C>>, <<"fcalc", <<"fcalc", C, C>>, C>>, <<"calc", C, <<"fcalc", C, C>>>>, <<"list", <<C, <<"calc", <<"fcalc", C, C>>, C>>, C>>>>,
              <<"gcall", <<<<"fcalc", C, C>>, C>>>>, <<"map", <<<<<<"fcalc", C, C>>, C>>>>>>, <<"tern", <<"fcalc", C, C>>, C, C>> }
-Shapes == IF Depth = 1 THEN {C, <<"var">>} \cup Over(Kids1) \cup {<<"map", <<<<C, C>>, <<C, C>>>>>>, <<"stmt", <<>>>>, <<"stmt", <<C, C, C>>>>}
+Shapes == IF Depth = 1 THEN {C, <<"var">>} \cup Over(Kids1) \cup {<<"casecall", <<C>>>>, <<"bsum", <<C, C>>>>, <<"calc", <<"fcalc", C, C>>, C>>} \cup {<<"map", <<<<C, C>>, <<C, C>>>>>>, <<"stmt", <<>>>>, <<"stmt", <<C, C, C>>>>}
           ELSE Ladders \cup FChains \cup Over(Kids2) \cup {<<"stmt", <<a, b, c>>>> : a \in {C, <<"set", C>>}, b \in Kids2, c \in {C, <<"var">>, <<"tern", C, C, C>>}}
 RECURSIVE Size(_), SizeSeq(_)
 SizeSeq(s) == IF s = <<>> THEN 0 ELSE Size(Head(s)) + SizeSeq(Tail(s))
